@@ -19,7 +19,12 @@ func (fgen *funcGen) newTerm(old ast.Terminator) (ir.Terminator, error) {
 	// Value terminators.
 	case *ast.LocalDefTerm:
 		ident := localIdent(old.Name())
-		return fgen.newValueTerm(ident, old.Term())
+		term, err := fgen.newValueTerm(ident, old.Term())
+		if err != nil {
+			return nil, err
+		}
+		fgen.recordExplicitID(ident, term)
+		return term, nil
 	case ast.ValueTerminator:
 		unnamed := ir.LocalIdent{}
 		return fgen.newValueTerm(unnamed, old)
